@@ -70,7 +70,9 @@ def main1(argv):
         if tp:
             model_untrusted.append("translator could not read: " + "; ".join(tp[:4]))
         import re as _re0
-        failed_vo = _re0.findall(r"\*\*\* \[[^\]]*?:\s*((?:Gen|Base|Model)/\w+|Proofs/Tie\w*)\.vo\]", mk or "")
+        # (any file of the development other than the per-property statement files: a proof ABOUT the model that no longer goes
+        # through means the model is no longer known to satisfy what the oracles take from it)
+        failed_vo = _re0.findall(r"\*\*\* \[[^\]]*?:\s*((?:Gen|Base|Model|Spec|Proofs|Pinned)/\w+)\.vo\]", mk or "")
         if failed_vo:
             model_untrusted.append("does not compile: " + ", ".join(sorted(set(failed_vo))[:6]))
         ok_p, theorems, assumptions, pout = vf.check_property_file(pid)
@@ -170,7 +172,7 @@ def main1(argv):
     replay_path = None
     # a disagreement between the model and the implementation is a broken correspondence, not yet a failing input: the
     # property oracle of the check (RFC oracle, relational check, crash, specification-built expectation ...) decides that
-    is_corr = lambda v: v[3].startswith("model/implementation disagreement")
+    is_corr = lambda v: "model/implementation disagreement" in v[3][:400]
     if model_untrusted and not a.replay:
         # the model is no oracle in this run: a verdict that disappears when the model is made to agree with the implementation
         # rested on the model alone and is a broken correspondence, not a failing input; verdicts of the model-independent
